@@ -29,6 +29,9 @@ func chase(v reflect.Value) reflect.Value {
 
 // coqGval prints a Go value as a Coq [gval] (Normalize.v): the reflection-free view of
 // what normalize sees. Map entries are printed in sorted key order.
+// the struct tag name field names are read from (StructTag option of the call that is rendered)
+var gvalStructTag = "config"
+
 func coqGval(x interface{}, tag string) string {
 	if x == nil {
 		return "GNil"
@@ -117,7 +120,7 @@ func coqGvalR(v reflect.Value, tag string) string {
 			} else {
 				fv = coqGvalR(v.Field(i), "")
 			}
-			xs[i] = "(" + coqStr(f.Name) + ", " + coqStr(f.Tag.Get("config")) + ", " + fv + ")"
+			xs[i] = "(" + coqStr(f.Name) + ", " + coqStr(f.Tag.Get(gvalStructTag)) + ", " + fv + ")"
 		}
 		return "(GStruct " + coqList(xs) + ")"
 	case reflect.Ptr, reflect.Interface:
